@@ -731,6 +731,10 @@ impl ReCompiler {
                     || quantifier_type == Some('*')
                     || (quantifier_type == Some('{') && self.bracket_min == 0)
                 {
+                    // a reluctant marker after the quantifier is part of it
+                    if self.idx < self.len && self.pattern[self.idx] == '?' {
+                        self.idx += 1;
+                    }
                     return Ok(Operation::from(Nothing));
                 } else {
                     quantifier_type = None
